@@ -1,6 +1,7 @@
 package rules
 
 import (
+	"regexp"
 	"fmt"
 	"go/token"
 	"go/types"
@@ -321,4 +322,21 @@ func splitCall(s string) (name string, args []string, ok bool) {
 		}
 	}
 	return "", nil, false
+}
+
+var reIDs = regexp.MustCompile(`'?@[^ .,)\]\[]*`)
+
+// stable strips value ids (@frame:tN) and snapshot marks so that a string can
+// be used in an obligation key.
+func stable(s string) string { return reIDs.ReplaceAllString(s, "") }
+
+// plainAtoms returns the facts with snapshot identities removed.
+func plainAtoms(f *core.Facts) []core.Atom {
+	all := f.All()
+	out := make([]core.Atom, len(all))
+	for i, a := range all {
+		a.L, a.R = core.Plain(a.L), core.Plain(a.R)
+		out[i] = a
+	}
+	return out
 }
